@@ -7,7 +7,7 @@
     and therefore the trie structure (up to the hash caches) and the root hash computed from
     it depend on the key-value content alone — not on the order of operations. *)
 From Coq Require Import List NArith Arith Bool.
-From Kardia Require Import C07.Model C07.ProofsBase C07.ProofsMap C07.ProofsCanon C07.ProofsEnc C07.ProofsCache C07.ProofsRlp C07.ProofsCodec C07.ProofsCommit C07.ProofsReopen C07.ProofsProof C07.ProofsBuild C07.ProofsStack C07.Open.
+From Kardia Require Import C07.Model C07.ProofsBase C07.ProofsMap C07.ProofsCanon C07.ProofsEnc C07.ProofsCache C07.ProofsRlp C07.ProofsCodec C07.ProofsCommit C07.ProofsReopen C07.ProofsProof C07.ProofsBuild C07.ProofsStack C07.ProofsStackIns C07.Open.
 Import ListNotations.
 
 (** keybytesToHex is injective on byte strings and yields well-formed keys *)
@@ -251,17 +251,31 @@ Proof.
 Qed.
 Print Assumptions C07_build_canonical.
 
-(** stack trie, PARTIAL: the hashing half only.  Whenever the stack trie's state [s] is a view
-    ([strel]) of a trie node [n] — leaves / extensions / branches on the rightmost path,
-    finished subtrees replaced by their collapsed value (encoding if < 32 bytes, else hash) —
-    StackTrie.Hash returns the root hash of [n].  Missing for the full statement
-    [C07_stack_equals_statement] (Open.v): StackTrie.insert maintains [strel] with respect to
-    Trie.insert for strictly increasing, prefix-free keys. *)
-Theorem C07_stack_hash_partial :
+(** stack trie, hashing half: whenever the stack trie's state [s] is a view ([strel]) of a trie
+    node [n] — finished subtrees replaced by their collapsed value (encoding if < 32 bytes,
+    else hash) — StackTrie.Hash returns the root hash of [n] *)
+Theorem C07_stack_hash :
   forall (H : bytes -> bytes), (forall x, length (H x) = 32) ->
   forall s n, strel H s n -> is_node' n -> st_root H s = H (cenc H n).
 Proof. exact st_root_rel. Qed.
-Print Assumptions C07_stack_hash_partial.
+Print Assumptions C07_stack_hash.
+
+(** streaming (stack) trie = trie: for keys fed in strictly increasing byte order with no key a
+    prefix of another ([sorted_bytes]: any earlier key differs from any later key first at a
+    position where both have a byte, the earlier one the smaller) and non-empty values,
+    StackTrie.Update never panics and StackTrie.Hash equals the root of the canonical trie
+    [build] of the same content (which by C07_build_canonical / C07_root_content_only is the
+    root Trie.Hash reports for that content).  types.DeriveSha feeds exactly such a sequence
+    (rlp(1..127), rlp(0), rlp(128..)). *)
+Theorem C07_stack_equals :
+  forall (H : bytes -> bytes), (forall x, length (H x) = 32) ->
+  forall kvs : list (bytes * bytes),
+  Forall (fun kv => is_bytes (fst kv) /\ snd kv <> []) kvs -> sorted_bytes kvs ->
+  stack_root H kvs = Some (build_root H kvs).
+Proof.
+  intros H Hlen kvs Hok Hs. apply (stack_equals H Hlen); auto. apply sorted_bytes_pf; auto.
+Qed.
+Print Assumptions C07_stack_equals.
 
 (** the hypotheses are satisfiable and the functions compute: three keys with a shared prefix
     inserted in two different orders (one history also inserts and deletes a fourth key, the
